@@ -66,3 +66,33 @@ claim("C43", "MIR guard-dominance (predicate-restricted) + literal-argument tabl
       "test on the same handle; check_non_existence=false is passed only with RUID ids from generate_ruid; burn_internal tombstone-locks every "
       "removed entry on every success path; update_non_fungible_data writes only after the mutable-field lookup succeeded and overwrites the "
       "looked-up index. Id uniqueness over histories additionally relies on C51.")
+
+claim("C39", "MIR guard-dominance with disjunctive guards + variant-arm agreement",
+      "Decides: in all four try_deposit_*_or_refund functions (original + Bottlenose) every deposit/deposit_batch call is reachable only when the "
+      "deposit is allowed (is_deposit_allowed / no offending bucket, with the offending filter keeping exactly the not-allowed buckets) or both "
+      "badge validations succeeded; the *_or_abort forms only delegate and return Ok only when nothing was refunded; is_deposit_allowed has no "
+      "catch-all arm and Allowed/Accept vs Disallowed/Reject arms return the right literal. AllowExisting semantics are not decided.")
+
+claim("C19", "MIR call classification + ordering (no direct DB mutation before the single batch flush), config B (rocksdb feature)",
+      "Decides the atomic-batch rule for RocksDBWithMerkleTreeSubstateStore::commit: exactly one flush; every DB mutation issued before it is a "
+      "WriteBatch operation on the flushed batch; META_CF and all SUBSTATES_CF mutations are in the batch on every path; direct mutations "
+      "after the flush touch only MERKLE_NODES_CF (GC). Found a genuine defect on the pinned tree (substates written directly before the flush), "
+      "repaired by a fix: commit. RocksDB's atomicity of write(batch) is trusted.",
+      note="Config B: radix-substate-store-impls --features rocksdb type-checked with an empty ROCKSDB_LIB_DIR (no C++ build, nothing linked or run).")
+
+claim("C15", "sibling agreement: per-variant effect classes of the three commit impls (MIR arm regions), config B",
+      "Decides: the three CommittableSubstateDatabase::commit implementations match on DatabaseUpdate / PartitionDatabaseUpdates without a "
+      "catch-all; Set arms only insert, Delete arms only remove, Reset arms clear before re-inserting, Delta arms never clear; both RocksDB stores "
+      "share the key encoder and the range-end constant. Order preservation of the key encoding and listing equality are not decided.",
+      note="Config B: radix-substate-store-impls --features rocksdb type-checked with an empty ROCKSDB_LIB_DIR (no C++ build, nothing linked or run).")
+
+claim("C29", "audited panic surface of the date-time parser with dominance-based discharge rules",
+      "Decides the parse-never-panics clause for <UtcDateTime as FromStr>::from_str and UtcDateTime::new: every &str range slice is dominated by "
+      "is_ascii()==true and a length test covering the slice end, every constant Vec index by len()==N; month-1 and the table index by the "
+      "(1..=12) test. Found a genuine defect on the pinned tree (char-count guard, byte slicing), repaired by a fix: commit. Calendar arithmetic is not decided.",
+      level="other")
+
+claim("C41", "constant/config agreement: per-function table of RoundingMode constructions",
+      "Decides the rounding-direction clause only: payout computations (calculate_amount_owed, the only payout source of redeem / "
+      "get_redemption_value) construct only round-down modes; WithdrawStrategy::Rounded built inside pools rounds down; only contribute may "
+      "round up. No arithmetic clause is decided.")
